@@ -190,7 +190,19 @@ class TexturedTriMesh(TriMesh):
         --------
         trimesh : :map:`TriMesh`
             A new trimesh created from the vector with ``self`` trilist.
+
+        Raises
+        ------
+        ValueError
+            If the vector does not hold exactly ``n_points * n_dims`` values.
         """
+        if flattened.size != self.points.size:
+            raise ValueError(
+                "Expected a vector of {} values ({} {}D points); got {} "
+                "instead.".format(
+                    self.points.size, self.n_points, self.n_dims, flattened.size
+                )
+            )
         new_mesh = TexturedTriMesh(
             flattened.reshape([-1, self.n_dims]),
             self.tcoords.points,
